@@ -50,7 +50,9 @@ type Case struct {
 	BreakOnError bool       `json:"break_on_error"`
 	Cmds         []string   `json:"cmds"` // applied round robin to successive suspensions
 	Plan         sched.Plan `json:"plan"`
-	StopAll      int        `json:"stop_all,omitempty"` // > 0: that many sink threads are suspended at a breakpoint on several workers, then StopThreads must release every one of them
+	Late         []int      `json:"late,omitempty"`       // line selectors of break points which are set WHILE the program runs: at the LateAfter-th state visit inside a function call (as if a client sent break commands at that moment)
+	LateAfter    int        `json:"late_after,omitempty"` //
+	StopAll      int        `json:"stop_all,omitempty"`   // > 0: that many sink threads are suspended at a breakpoint on several workers, then StopThreads must release every one of them
 }
 
 func TestMain(m *testing.M) { hx.Main(m, "C15", rule) }
@@ -79,6 +81,12 @@ type wrapDbg struct {
 	depth  map[uint64]int // function call depth (step-in minus step-out)
 	visits []visit
 	nvis   int64
+	// late break points
+	late       func()
+	lateAfter  int
+	inFunc     int
+	lateDone   bool
+	lateInCall bool
 }
 
 func newWrap(inner util.ECALDebugger) *wrapDbg {
@@ -90,7 +98,22 @@ func (w *wrapDbg) VisitState(node *parser.ASTNode, vs parser.Scope, tid uint64) 
 		w.mu.Lock()
 		w.cur[tid] = node.Token.Lline
 		w.visits = append(w.visits, visit{tid, node.Token.Lline})
+		var fire func()
+		if w.late != nil && !w.lateDone {
+			if w.depth[tid] >= 1 {
+				w.inFunc++
+			}
+			// inside a function call if the program has one early enough, otherwise after some statements
+			if (w.depth[tid] >= 1 && w.inFunc > w.lateAfter) || len(w.visits) > 12+8*w.lateAfter {
+				w.lateDone = true
+				w.lateInCall = w.depth[tid] >= 1
+				fire = w.late
+			}
+		}
 		w.mu.Unlock()
+		if fire != nil {
+			fire() // a client sets break points now: this thread is inside a function call
+		}
 	}
 	atomic.AddInt64(&w.nvis, 1)
 	return w.ECALDebugger.VisitState(node, vs, tid)
@@ -181,6 +204,10 @@ type stop struct {
 }
 
 func runCase(c Case) (fail *hx.Failure) {
+	// sink variants run on pool workers: a panic there (or a runtime abort anywhere) kills the process;
+	// the case is written ahead so that the driver can report it (crash:inflight)
+	hx.WriteInflight(c)
+	defer hx.ClearInflight()
 	if c.StopAll > 0 {
 		return runStopAll(c)
 	}
@@ -233,6 +260,14 @@ func runCase(c Case) (fail *hx.Failure) {
 		}
 	}
 
+	var lateLines []int
+	lateSet := map[int]bool{}
+	for _, b := range c.Late {
+		l := 1 + abs(b)%nlines
+		lateLines = append(lateLines, l)
+		lateSet[l] = true
+	}
+
 	// (2) the debugged run
 	s := sched.Install(c.Plan)
 	var suspMu sync.Mutex
@@ -277,6 +312,14 @@ func runCase(c Case) (fail *hx.Failure) {
 				}
 			}
 			w = newWrap(inner)
+			if len(lateLines) > 0 {
+				w.lateAfter = c.LateAfter
+				w.late = func() {
+					for _, l := range lateLines {
+						inner.SetBreakPoint(srcName, l)
+					}
+				}
+			}
 			close(ready)
 			return w
 		}})
@@ -402,7 +445,8 @@ func runCase(c Case) (fail *hx.Failure) {
 				// have been waiting at one: stops of the tail are not judged
 				break
 			}
-			justified := active[st.line] || (c.BreakOnStart && firstStop) || c.BreakOnError
+			// (a stop at a late break point can only happen after it was set)
+			justified := active[st.line] || lateSet[st.line] || (c.BreakOnStart && firstStop) || c.BreakOnError
 			if !justified {
 				return hx.Failf("unjustified-stop", "thread %d stopped at line %d after '%s' but there is no active breakpoint there (active: %v, breakOnStart=%v, breakOnError=%v)\n%s",
 					st.tid, st.line, pc, keys(active), c.BreakOnStart, c.BreakOnError, src)
@@ -413,7 +457,7 @@ func runCase(c Case) (fail *hx.Failure) {
 	}
 
 	// (3) completeness for resume-only sessions
-	resumeOnly := !c.BreakOnStart && !c.BreakOnError && len(stops) <= 400
+	resumeOnly := !c.BreakOnStart && !c.BreakOnError && len(stops) <= 400 && len(c.Late) == 0
 	for _, cmd := range c.Cmds {
 		if cmd != "resume" {
 			resumeOnly = false
@@ -506,7 +550,16 @@ func runCase(c Case) (fail *hx.Failure) {
 	if c.BreakOnError {
 		classes = append(classes, "break-on-error")
 	}
-	key := src + fmt.Sprint(keys(active), c.Cmds, c.Plan, c.BreakOnStart, c.BreakOnError)
+	if len(lateLines) > 0 {
+		w.mu.Lock()
+		fired, inCall := w.lateDone, w.lateInCall
+		w.mu.Unlock()
+		classes = append(classes, fmt.Sprintf("late-break-points.set.%v.inside-a-call.%v", fired, inCall))
+		if fired && len(keys(active)) == 0 && !c.BreakOnStart && !c.BreakOnError {
+			classes = append(classes, "late-break-points.nothing-observed-before")
+		}
+	}
+	key := src + fmt.Sprint(keys(active), c.Cmds, c.Plan, c.BreakOnStart, c.BreakOnError, lateLines, c.LateAfter)
 	hx.E.Case(nt, key, classes...)
 	hx.E.Class("suspensions", int64(len(stops)))
 	if nt {
@@ -681,6 +734,16 @@ func genCase(rt *rapid.T) Case {
 		c.Plan = append(c.Plan, sched.Rule{Point: "debug.suspend", Nth: 0, Action: "yield", N: pick(4, "yn")})
 	case 2:
 		c.Plan = append(c.Plan, sched.Rule{Point: "debug.resumed", Nth: 0, Action: "sleep", N: 1 + pick(100, "sn")})
+	}
+	if pick(3, "late") == 0 {
+		for i, n := 0, 1+pick(3, "nlate"); i < n; i++ {
+			c.Late = append(c.Late, pick(200, "ll"))
+		}
+		c.LateAfter = pick(3, "lateafter")
+		if pick(2, "lateonly") == 0 {
+			// nothing is observed when the call is entered
+			c.Breaks, c.Disabled, c.Removed, c.BreakOnStart, c.BreakOnError = nil, nil, nil, false, false
+		}
 	}
 	if pick(16, "stopall") == 0 {
 		c.StopAll = 2 + pick(3, "stopn")
